@@ -191,3 +191,180 @@ theorem encode_refines (vs : List Bytes) : compkey.encode vs = P.ok (encodeSpec 
     rfl
 
 end Panacea.Refine.CompKey
+
+namespace Panacea.Refine.CompKey
+open Panacea Panacea.Gen Panacea.Go
+
+/-! ## `Decode` -/
+
+def failed : Go.Err := some "fmt:failed to decode composite key"
+
+def byteAt (bz : Bytes) (i : Nat) : UInt8 := (bz[i]?).getD 0
+
+/-- the state in which the loop of `Decode` ends when given `n` iterations of fuel -/
+def decState {κ : Type} (bz : Bytes) (out : κ) :
+    Nat → List Bytes → Nat → Option (Go.Err × κ) × List Bytes × Int × Bool
+  | 0, values, i => (none, values, (i : Int), false)
+  | n+1, values, i =>
+    if ¬ (i < bz.length) then (none, values, (i : Int), true)
+    else
+      let x := byteAt bz i
+      if i + 1 + x.toNat > bz.length then (some (failed, out), values, ((i + 1 : Nat) : Int), false)
+      else decState bz out n (values ++ [(bz.take (i + 1 + x.toNat)).drop (i + 1)]) (i + 1 + x.toNat)
+
+theorem idx_ok (bz : Bytes) (i : Nat) (h : i < bz.length) : Go.idx bz (i : Int) = P.ok (byteAt bz i) := by
+  unfold Go.idx byteAt
+  have : ¬ ((i : Int) < 0) := by omega
+  rw [if_neg this]
+  simp [List.getElem?_eq_getElem h]
+
+theorem slice_ok (bz : Bytes) (lo hi : Nat) (h1 : lo ≤ hi) (h2 : hi ≤ bz.length) :
+    Go.slice bz (lo : Int) (some (hi : Int)) = P.ok ((bz.take hi).drop lo) := by
+  unfold Go.slice
+  simp only [Option.getD_some]
+  have : ¬ ((lo : Int) < 0 ∨ (hi : Int) < (lo : Int) ∨ (hi : Int) > ((bz.length : Nat) : Int)) := by omega
+  rw [if_neg this]
+  simp
+
+theorem make_ok (n : Nat) : (Go.make (n : Int) : P Bytes) = P.ok (List.replicate n default) := by
+  unfold Go.make
+  have : ¬ ((n : Int) < 0) := by omega
+  rw [if_neg this]; simp
+
+theorem copy_full (s : Bytes) (n : Nat) (h : s.length = n) :
+    Go.copyAt (List.replicate n (default : UInt8)) 0 s = P.ok (s, (n : Int)) := by
+  have := copyAt_append [] (List.replicate n (default : UInt8)) s (by simp [h])
+  simp only [List.nil_append, List.length_nil, Int.cast_ofNat_Int] at this
+  rw [this]
+  simp [h]
+
+theorem decode_loop {κ : Type} (bz : Bytes) (out : κ) (l : List Nat) :
+    ∀ (values : List Bytes) (i : Nat),
+    (forIn l ((none : Option (Go.Err × κ)), values, (i : Int), false) fun x __s =>
+        if (!decide (__s.snd.snd.fst < Go.len bz)) = true then
+          (pure (ForInStep.done (none, __s.snd.fst, __s.snd.snd.fst, true)) : P _)
+        else do
+          let x ← Go.idx bz __s.snd.snd.fst
+          if decide (__s.snd.snd.fst + 1 + ↑x.toNat > Go.len bz) = true then
+              pure
+                (ForInStep.done
+                  (some (some "fmt:failed to decode composite key", out), __s.snd.fst, __s.snd.snd.fst + 1,
+                    __s.snd.snd.snd))
+            else do
+              let t_1 ← Go.make ↑x.toNat
+              let s ← Go.slice bz (__s.snd.snd.fst + 1) (some (__s.snd.snd.fst + 1 + ↑x.toNat))
+              (fun a =>
+                    ForInStep.yield
+                      (none, __s.snd.fst ++ [a.fst], __s.snd.snd.fst + 1 + a.snd, __s.snd.snd.snd)) <$>
+                  Go.copyAt t_1 0 s) =
+    P.ok (decState bz out l.length values i) := by
+  induction l with
+  | nil => intro values i; simp [decState]
+  | cons a l ih =>
+    intro values i
+    simp only [List.forIn_cons, List.length_cons]
+    by_cases hi : i < bz.length
+    · have c1 : ¬ ((!decide ((i : Int) < Go.len bz)) = true) := by simp [Go.len]; omega
+      rw [if_neg c1, idx_ok bz i hi]
+      simp only [P.ok_bind]
+      by_cases hx : i + 1 + (byteAt bz i).toNat > bz.length
+      · have c2 : decide ((i : Int) + 1 + (((byteAt bz i).toNat : Nat) : Int) > Go.len bz) = true := by
+          simp [Go.len]; omega
+        rw [if_pos c2]
+        simp only [pure_bind]
+        simp [decState, hi, hx, failed]
+      · have c2 : ¬ (decide ((i : Int) + 1 + (((byteAt bz i).toNat : Nat) : Int) > Go.len bz) = true) := by
+          simp [Go.len]; omega
+        rw [if_neg c2, make_ok]
+        simp only [P.ok_bind]
+        have e1 : ((i : Int) + 1) = ((i + 1 : Nat) : Int) := by omega
+        have e2 : ((i : Int) + 1 + (((byteAt bz i).toNat : Nat) : Int)) = ((i + 1 + (byteAt bz i).toNat : Nat) : Int) := by omega
+        rw [e2, e1, slice_ok bz _ _ (by omega) (by omega)]
+        simp only [P.ok_bind]
+        rw [copy_full _ _ (by simp; omega)]
+        simp only [P.map_ok, P.ok_bind]
+        have e3 : (((i + 1 : Nat) : Int) + (((byteAt bz i).toNat : Nat) : Int)) = ((i + 1 + (byteAt bz i).toNat : Nat) : Int) := by omega
+        rw [e3, ih]
+        simp [decState, hi, hx]
+    · have c1 : (!decide ((i : Int) < Go.len bz)) = true := by simp [Go.len]; omega
+      rw [if_pos c1]
+      simp only [pure_bind]
+      simp [decState, hi]
+
+/-- with enough fuel the loop state is the model's `decodeAux` -/
+theorem decState_spec {κ : Type} (bz : Bytes) (out : κ) : ∀ (n : Nat) (values : List Bytes) (i : Nat),
+    i ≤ bz.length → bz.length - i + 1 ≤ n →
+    (match CompKey.decodeAux n (bz.drop i) with
+     | some vs => decState bz out n values i = (none, values ++ vs, (bz.length : Int), true)
+     | none => (decState bz out n values i).1 = some (failed, out)) := by
+  intro n
+  induction n with
+  | zero => intro values i _ h; omega
+  | succ n ih =>
+    intro values i hi hn
+    by_cases hlt : i < bz.length
+    · have hdrop : bz.drop i = (byteAt bz i) :: bz.drop (i + 1) := by
+        rw [List.drop_eq_getElem_cons hlt]; simp [byteAt, List.getElem?_eq_getElem hlt]
+      rw [hdrop, CompKey.decodeAux]
+      by_cases hx : i + 1 + (byteAt bz i).toNat > bz.length
+      · have : (byteAt bz i).toNat > (bz.drop (i + 1)).length := by simp; omega
+        simp only [this, if_true]
+        simp [decState, hlt, hx]
+      · have : ¬ ((byteAt bz i).toNat > (bz.drop (i + 1)).length) := by simp; omega
+        simp only [this, if_false]
+        have hstep : decState bz out (n + 1) values i =
+            decState bz out n (values ++ [(bz.take (i + 1 + (byteAt bz i).toNat)).drop (i + 1)]) (i + 1 + (byteAt bz i).toNat) := by
+          simp [decState, hlt, hx]
+        rw [hstep, List.drop_drop]
+        have key := ih (values ++ [(bz.take (i + 1 + (byteAt bz i).toNat)).drop (i + 1)]) (i + 1 + (byteAt bz i).toNat) (by omega) (by omega)
+        cases hd : CompKey.decodeAux n (bz.drop (i + 1 + (byteAt bz i).toNat)) with
+        | none => rw [hd] at key; simpa using key
+        | some vs =>
+          rw [hd] at key
+          simp only at key ⊢
+          rw [key]
+          have : (bz.drop (i + 1)).take (byteAt bz i).toNat = (bz.take (i + 1 + (byteAt bz i).toNat)).drop (i + 1) := by
+            rw [List.drop_take]; congr 1; omega
+          simp [this]
+    · have : bz.drop i = [] := by apply List.drop_eq_nil_of_le; omega
+      rw [this]
+      have hi' : i = bz.length := by omega
+      simp [CompKey.decodeAux, decState, hlt, hi']
+
+/-- what `compkey.Decode` computes, in terms of the model and the typed key's `FromByteSlices` -/
+def decodeSpec {κ : Type} (I : compkey.CompositeKey κ) (bz : Bytes) (out : κ) : P (Go.Err × κ) :=
+  match CompKey.decode bz with
+  | none => P.ok (failed, out)
+  | some vs => I.FromByteSlices out vs
+
+/-- **`compkey.Decode` refines the model**: the fuel suffices, no index or slice bound is violated, and the
+result is the model's component list handed to `FromByteSlices`, or the decoding error exactly when the
+model rejects. -/
+theorem decode_refines {κ : Type} (I : compkey.CompositeKey κ) (bz : Bytes) (out : κ) :
+    compkey.Decode I bz out = decodeSpec I bz out := by
+  unfold compkey.Decode
+  simp only [bind_pure_comp, id]
+  have hm : (Go.make (0 : Int) : P (List Bytes)) = P.ok [] := by
+    unfold Go.make; simp
+  rw [hm]
+  simp only [P.ok_bind]
+  have hl := decode_loop bz out (List.range (bz.length + 1)) [] 0
+  simp only [Int.cast_ofNat_Int, List.length_range] at hl
+  rw [hl]
+  simp only [P.ok_bind]
+  have hs := decState_spec bz out (bz.length + 1) [] 0 (by omega) (by omega)
+  unfold decodeSpec CompKey.decode
+  simp only [List.drop_zero] at hs
+  cases hd : CompKey.decodeAux (bz.length + 1) bz with
+  | none =>
+    rw [hd] at hs
+    simp only at hs
+    rw [hs]; rfl
+  | some vs =>
+    rw [hd] at hs
+    simp only [List.nil_append] at hs
+    rw [hs]
+    simp only [Bool.not_true, Bool.false_eq_true, if_false]
+    cases I.FromByteSlices out vs <;> rfl
+
+end Panacea.Refine.CompKey
